@@ -15,6 +15,11 @@ CONST_VIEWS = ["{d} = mg.reshape({s}, (3, 2), constant={c})", "{d} = mg.reshape(
                "{d} = mg.swapaxes({s}, 0, -1, constant={c})", "{d} = mg.expand_dims({s}, 0, constant={c})"]
 
 
+MAYBE_VIEWS = ["{d} = {s}.ravel()", "{d} = mg.ravel({s})", "{d} = np.ravel({s})", "{d} = {s}.flatten()", "{d} = mg.reshape({s}, (-1,))", "{d} = {s}.reshape(-1, 1)",
+               "{d} = mg.squeeze({s})", "{d} = mg.expand_dims({s}, 0)", "{d} = mg.moveaxis({s}, 0, -1)", "{d} = mg.atleast_2d({s})", "{d} = mg.transpose({s})",
+               "{d} = mg.roll({s}, 1)", "{d} = mg.repeat({s}, 1)"]
+
+
 def cases(tier):
     quick = tier == "quick"
     out = []
@@ -67,6 +72,31 @@ def cases(tier):
                         progs.append(pre + [last])
         for i in range(0, len(progs), 40):
             out.append({"name": "%s/rejected-shape/%d" % (base, i), "base": base, "progs": progs[i:i + 40], "last_rejected": True})
+    # functions that return a view only when the memory allows it (ravel, reshape, squeeze, ...), applied to the base or to a strided /
+    # reversed / transposed / column view of it, then one in-place statement on any member: NumPy decides view-or-copy, MyGrad must agree
+    for base in ("flat6", "mat23", "mat23F"):
+        shape = vp.BASES[base]
+        fo = base in vp.F_ORDERED
+        progs = []
+        firsts = [None] + [v.format(d="v", s="t") for v in vp.VIEWS + ["{d} = {s}[:, 0]", "{d} = {s}[:, ::2]", "{d} = {s}[1:3]"]]
+        for l1 in firsts:
+            pre = [l1] if l1 else []
+            if not vp.well_typed(pre, shape, fo):
+                continue
+            src = "v" if l1 else "t"
+            for tpl2 in MAYBE_VIEWS:
+                l2 = tpl2.format(d="w", s=src)
+                if not vp.well_typed(pre + [l2], shape, fo):
+                    continue
+                names = ["t"] + (["v"] if l1 else []) + ["w"]
+                for tpl in ("{t}[...] = y0", "{t} *= k", "mg.multiply({o}, y0, out={t}, where=Mt)") if quick else ("{t}[...] = y0", "{t}[:1] = c1", "{t} *= k", "mg.multiply({o}, y0, out={t}, where=Mt)", "{t}[[0, 0]] = y2"):
+                    for tgt in names:
+                        o = [n for n in names if n != tgt][0]
+                        l3 = tpl.format(t=tgt, o=o)
+                        if vp.well_typed(pre + [l2, l3], shape, fo):
+                            progs.append(pre + [l2, l3])
+        for i in range(0, len(progs), 60):
+            out.append({"name": "%s/maybe-view/%d" % (base, i), "base": base, "progs": progs[i:i + 60]})
     # constant-flag family: constant / non-constant base, a view created with an explicit constant= (either way), an
     # ordinary view of the base or of that view, then one in-place statement on any member of the family
     for base in ("flat6", "mat23"):
@@ -199,11 +229,12 @@ try:
             if consts[n] != T[n].constant: bad.append((i, n, "constant"))
             if T[n].shape != A[n].shape or not np.allclose(T[n].data, A[n]): bad.append((i, n, "values", T[n].data.tolist(), A[n].tolist()))
             ub = ultimate(A[n])
-            if ub is A[n]:
+            own = [m for m in live if A[m] is ub]  # (creation order; NumPy may have returned the very array it was given)
+            if ub is A[n] and (own[0] == n or T[n] is T[own[0]]):
                 if T[n].base is not None: bad.append((i, n, "base should be None"))
-            else:
-                own = [m for m in live if A[m] is ub]
-                if own and T[n].base is not T[own[0]]: bad.append((i, n, "base should be " + own[0]))
+            elif ub is A[n]:
+                if T[n].base is not None and T[n].base is not T[own[0]]: bad.append((i, n, "base should be None or " + own[0]))
+            elif own and T[n].base is not T[own[0]]: bad.append((i, n, "base should be " + own[0]))
         for x in live:
             for y in live:
                 if x < y and np.shares_memory(T[x].data, T[y].data) != np.shares_memory(A[x], A[y]): bad.append((i, x + "," + y, "shares_memory"))
@@ -230,10 +261,14 @@ def run_case(spec, tier):
             res["notes"].append("%s: %s" % ("; ".join(lines), msg))
             continue
         path = common.write_replay(PROP, gradcase._safe("%s_%d" % (spec["name"], k)), replay_source(spec["base"], lines, spec.get("const_base", False), spec.get("last_rejected", False)))
-        ok, out = common.run_replay(path)
+        sig = "%s:%s" % (kind, "raised" if kind == "exc" else msg.split(": ", 1)[1][:40] if ": " in msg else msg[:40])
+        if "maybe-view" in spec["name"]:
+            # keyed by the statement that creates the tensor in question and the statement after which the states differ
+            sig = "maybe-view:%s:%s|%s|%s" % (spec["base"], [l for l in lines if l.startswith("w = ")][0], lines[-1], sig)
+        # (the confirmation of a listed known finding does not use up the replay budget)
+        ok, out = common.run_replay(path, count=common.match_known(common.load_known(PROP), sig) is None)
         if ok:
             res["status"] = common.VIOLATION
-            sig = "%s:%s" % (kind, "raised" if kind == "exc" else msg.split(": ", 1)[1][:40] if ": " in msg else msg[:40])
             res["violations"].append({"signature": sig, "replay": path, "summary": "program `%s` (base %s): %s" % ("; ".join(lines), spec["base"], msg)})
         else:
             res["status"] = common.INCONCLUSIVE
